@@ -26,7 +26,7 @@ RULE = ("fault enumeration: histories over {P protect request, A(n) accept genui
         "respond to the last accepted request (twice: reuse then own number), Q / QP own request answered by the peer without / with its own Partial IV, S clean stop + reload, K process death between two operations + reload, X plant a stray temp file} up to "
         "length L (AR: the request that completed the last Echo exchange arrives again; in the quick tier the middle operation of the longest histories is one of P, AE, R, S, Q), chunk sizes start in {1,2,3,10} x limit in {4,10000}; for every history, every file-system effect k of every operation "
         "and every mode (before / after / half-written) one run with the process dying there, then reload and continue; plus "
-        "exhaustion histories starting at 2^40-3..2^40-1. distinct = distinct (history, crash point)")
+        "exhaustion histories starting at 2^40-3..2^40-1 and histories across the numbers 2^8, 2^16, 2^24, 2^32, 0x1300. distinct = distinct (history, crash point)")
 ASSUMPTIONS = [
     "crash = process death: completed file-system operations persist, nothing else does (power loss / un-fsynced directory entries are not modelled)",
     "file-system errors (ENOSPC etc.) are not injected",
@@ -469,6 +469,11 @@ def job(arg):
         for nts in (MAX - 3, MAX - 2, MAX - 1, MAX):
             for recv in ({"index": 0, "bitfield": 0}, "unknown"):
                 r = check_history(res, (("P",), ("P",), ("P",), ("S",), ("P",), ("P",)), 1, 4, {"next-to-send": nts, "received": recv}, crashes=(nts < MAX))
+        # numbers whose encoding grows by a byte, or ends in zero bytes, part of the way through the history
+        for nts in (254, 255, 65534, 65535, 2 ** 24 - 2, 2 ** 32 - 2, 0x12FE):
+            for start, limit in ((1, 4), (10, 10000)):
+                check_history(res, (("P",), ("P",), ("P",), ("S",), ("P",), ("P",)), start, limit, {"next-to-send": nts, "received": {"index": 0, "bitfield": 0}},
+                              crashes=(tier == "thorough"))
         res.sample({"start_next_to_send": MAX - 2, "history": "P P P S P P"})
     return res
 
